@@ -118,6 +118,15 @@ class Build:
         rc1, _ = sh("make -q -f Makefile.coq 2>/dev/null")
         self.make_log = out
         self.make_ok = "Error" not in out and "error" not in out.lower().replace("err_code", "")
+        # a file that no longer compiles must not leave its previous .vo behind: every property whose theorems depend on
+        # it then fails to re-check (missing / inconsistent library) instead of silently using the stale compilation
+        self.failed_vo = sorted(set(re.findall(r"\[Makefile\.coq:\d+: (theories/[\w/]+\.vo)\] Error", out)))
+        for vo in self.failed_vo:
+            for ext in ("", "s", "k"):
+                try:
+                    os.remove(os.path.join(VERIF, vo + ext))
+                except OSError:
+                    pass
         rc, out2 = sh("make runner 2>&1 | tail -20", timeout=600)
         if rc != 0 or not os.path.exists(self.runner_path):
             self.make_ok = False
